@@ -290,11 +290,56 @@ func constructedBoard(r *rand.Rand, size int, maxH int, fill float64) (*tak.Posi
 		move = r.Intn(2)
 	}
 	cfg := tak.Config{Size: size, BlackWinsTies: r.Intn(4) == 0}
+	fitReserves(r, &cfg, board)
 	p, err := tak.FromSquares(cfg, board, move)
 	if err != nil {
 		panic(err)
 	}
 	return p, board, move
+}
+
+// fitReserves chooses piece and capstone counts so that the board does not use more pieces than a
+// player has (a board that does is not a well-formed position: the byte reserves would wrap).
+// Sometimes the counts are exact, so that a player has nothing left.
+func fitReserves(r *rand.Rand, cfg *tak.Config, board [][]tak.Square) {
+	var stones, caps [2]int
+	for _, row := range board {
+		for _, sq := range row {
+			for _, pc := range sq {
+				i := 0
+				if pc.Color() == tak.Black {
+					i = 1
+				}
+				if pc.Kind() == tak.Capstone {
+					caps[i]++
+				} else {
+					stones[i]++
+				}
+			}
+		}
+	}
+	ms, mc := stones[0], caps[0]
+	if stones[1] > ms {
+		ms = stones[1]
+	}
+	if caps[1] > mc {
+		mc = caps[1]
+	}
+	extraS, extraC := r.Intn(12), r.Intn(2)
+	if r.Intn(6) == 0 {
+		extraS, extraC = 0, 0
+	}
+	cfg.Pieces = ms + extraS
+	cfg.Capstones = mc + extraC
+	if cfg.Pieces == 0 { // 0 means "default" to tak.New
+		cfg.Pieces = 1
+	}
+	if cfg.Pieces > 255 {
+		cfg.Pieces = 255
+	}
+	if cfg.Capstones == 0 && r.Intn(2) == 0 {
+		cfg.Capstones = 1
+	}
 }
 
 func boardOf(p *tak.Position) [][]tak.Square {
